@@ -55,6 +55,19 @@ def run_worker(wid, variants, keep=False):
             edits = v.get("edits") or [v]
             originals = {}
             applicable = True
+            if v.get("patch"):
+                # a whole patch (an independently seeded change or a refactoring kept under /verif)
+                edits = []
+                pfile = os.path.join(VERIF, v["patch"])
+                touched = [l[6:].strip() for l in open(pfile) if l.startswith("+++ b/")]
+                for rel in touched:
+                    pth = os.path.join(scratch, rel)
+                    originals[pth] = open(pth).read() if os.path.exists(pth) else None
+                pr = subprocess.run(["patch", "-p1", "-s", "--no-backup-if-mismatch", "-d", scratch, "-i", pfile],
+                                    stdout=subprocess.PIPE, stderr=subprocess.STDOUT, text=True)
+                if pr.returncode != 0:
+                    applicable = False
+                    res["why"] = "patch does not apply: %s" % pr.stdout[-200:]
             for e in edits:
                 path = os.path.join(scratch, e["file"])
                 try:
@@ -72,6 +85,10 @@ def run_worker(wid, variants, keep=False):
                     fh.write(cur.replace(e["find"], e["replace"]))
             if not applicable:
                 for path, src in originals.items():
+                    if src is None:
+                        if os.path.exists(path):
+                            os.remove(path)
+                        continue
                     with open(path, "w") as fh:
                         fh.write(src)
                 res["status"] = "not-applicable"
@@ -106,6 +123,10 @@ def run_worker(wid, variants, keep=False):
                 res["out"] = outp[-600:]
             results.append(res)
             for path, src in originals.items():
+                if src is None:
+                    if os.path.exists(path):
+                        os.remove(path)
+                    continue
                 with open(path, "w") as fh:
                     fh.write(src)
     finally:
